@@ -35,4 +35,20 @@ def runAll (cfg : Cfg) (tgt : Tgt) (bs : Bytes) : String :=
   let s := if Spec.Utf8.validUtf8 bs then runShow cfg .str tgt bs else "-"
   s ++ "|" ++ runShow cfg .slice tgt bs ++ "|" ++ runShow cfg .reader tgt bs
 
+/-- per-property projection of one source's outcome -/
+def projectOne (prop o : String) : String :=
+  if o == "-" then o
+  else if prop == "C01" || prop == "C19" then (if o.startsWith "V" || o == "U" then "A" else if o == "PANIC" then o else "R")
+  else if prop == "C02" || prop == "C04" || prop == "C06" || prop == "C07" || prop == "C08" || prop == "C20" then
+    (if o.startsWith "V" || o == "U" then o else "R")
+  else if prop == "C10" then
+    (match o.splitOn ":" with
+     | ["E", _, cat, l, c] => s!"E:{cat}:{l}:{c}"
+     | _ => if o.startsWith "V" || o == "U" then "A" else o)
+  else if prop == "C14" then (if o == "PANIC" then o else "ok")
+  else o
+
+def projectOutcome (prop obs : String) : String :=
+  String.intercalate "|" ((obs.splitOn "|").map (projectOne prop))
+
 end SJ.Drv.Mach
